@@ -45,6 +45,15 @@ def toy_cfg():
     return Cfg("toy", m, UInt16, 16, 0, 4096, False)
 
 
+def full_cfg():
+    """byte memory over the whole 32-bit address space with wrap-around (the instantiation used for CSRs and by most of
+    the repository's own tests): here the modulo-2**32 clause is observable for accesses straddling the top."""
+    m = Memory(AddressingType.BYTE, 32, True)
+    check("cfg_params", m.address_range.start == 0 and m.address_range.stop == 2 ** 32 and m.address_overflow is True)
+    m.memory_file = sym_map("M", UInt8)
+    return Cfg("full", m, UInt8, 8, 0, 2 ** 32, True)
+
+
 def eff(c, a):
     """effective address of a cell access"""
     return a % c.top if c.wrap else a
@@ -176,6 +185,32 @@ def r_reset():
     check("all_cells_zero", cell(c, k) == 0)
     check("no_cell_present", not (k in c.mem.memory_file))
     check_same("frame", shape, snapshot(c.mem, ignore=("memory_file",)))
+
+
+# ------------------------------------------------------------------ full-range instantiation (wrap-around observable)
+@unit("C18/Memory.read_word/full-range", expect_reach=("normal",))
+def f_rw():
+    read_contract(full_cfg(), 4, UInt32, lambda m, a: m.read_word(a))
+
+
+@unit("C18/Memory.read_halfword/full-range", expect_reach=("normal",))
+def f_rh():
+    read_contract(full_cfg(), 2, UInt16, lambda m, a: m.read_halfword(a))
+
+
+@unit("C18/Memory.write_word/full-range", expect_reach=("normal",))
+def f_ww():
+    write_contract(full_cfg(), 4, UInt32, lambda m, a, v: m.write_word(a, v))
+
+
+@unit("C18/Memory.write_halfword/full-range", expect_reach=("normal",))
+def f_wh():
+    write_contract(full_cfg(), 2, UInt16, lambda m, a, v: m.write_halfword(a, v))
+
+
+@unit("C18/Memory.write_byte/full-range", expect_reach=("normal",))
+def f_wb():
+    write_contract(full_cfg(), 1, UInt8, lambda m, a, v: m.write_byte(a, v))
 
 
 # ------------------------------------------------------------------ TOY instantiation
